@@ -90,6 +90,10 @@ impl HL {
     fn with_generic<T>(&self, t: T) -> bool { true }
     fn with_ref(&self, p: &Ptr) -> bool { p == p }
     fn with_mut_ref(&self, p: &mut Ptr) -> bool { true }
+    fn effect_in_assert(&mut self, p: Ptr) { debug_assert!(self.entries.pop().is_some()); self.cap = 1; }
+    fn effect_in_assert_eq(&mut self, p: Ptr) { assert_eq!(self.entries.remove(0), p); }
+    fn assign_in_assert(&mut self) { debug_assert!({ self.cap += 1; true }); }
+    fn pure_assert(&mut self, x: u32) { debug_assert!(x <= self.cap && x != 3 || x >= 1); assert_eq!(self.entries.len(), 0, "msg {}", x); self.cap = x; }
     fn unsafe_stmts(&mut self) { unsafe { self.cap = 1; self.cap = 2; } }
     fn unsafe_expr(&mut self) { unsafe { self.cap = 1 } }
     fn with_unknown(&self, s: Other) -> bool { true }
@@ -293,6 +297,10 @@ fn rejections() {
     rejected("with_generic", "generic function");
     rejected("with_mut_ref", "`&mut` parameter (only of a struct type)");
     rejected("unsafe_stmts", "`unsafe` block with statements");
+    rejected("effect_in_assert", "side effect inside an assertion (call of `pop`)");
+    rejected("effect_in_assert_eq", "side effect inside an assertion (call of `remove`)");
+    rejected("assign_in_assert", "side effect inside an assertion (an assignment)");
+    assert!(ok("pure_assert").ends_with("{ self with cap := x }"));
     rejected("with_unknown", "no Lean type given for the Rust type `Other`");
     rejected("with_call", "Vec method as a statement");
     rejected("with_pop", "method call used as a value");
